@@ -122,6 +122,9 @@ def run_property(pid, tier="quick", seed=0, replay_only=None):
         else:
             never_passed.append((name, a))
     unknowns = [(n, a) for n, a in sorted(agg.items()) if a["status"] == "unknown"]
+    base_undecided = set(baseline.get("not_discharged_at_baseline", []))
+    expected_unknown = [(n, a) for n, a in unknowns if n in base_undecided]
+    unknowns = [(n, a) for n, a in unknowns if n not in base_undecided]
 
     # bounded stand-ins (labelled, never counted as proved)
     standins = []
@@ -134,6 +137,38 @@ def run_property(pid, tier="quick", seed=0, replay_only=None):
     rdir = os.path.join(HERE, "replay_out", pid)
     os.makedirs(rdir, exist_ok=True)
     viol_count = 0
+    replay_cache = {}
+
+    def do_replay(name, fn, inst):
+        if fn not in replay_cache:
+            try:
+                replay_cache[fn] = props.replay(pid, name, fn, inst)
+            except Exception:
+                replay_cache[fn] = {"replayed": False, "error": traceback.format_exc()[-800:]}
+        return replay_cache[fn]
+
+    # an obligation that was discharged on the pinned tree and is now undecided by the solver: the replay
+    # scenarios for its function are run on the real code; only a concrete failing input makes it a violation
+    still_unknown = []
+    for name, a in unknowns:
+        if name not in base_set:
+            still_unknown.append((name, a))
+            continue
+        inst = a["unknown"][0]
+        rr = do_replay(name, a["function"], inst)
+        if rr and rr.get("replayed"):
+            rp = os.path.join(rdir, name.replace("/", "_").replace("#", "__").replace(":", "_") + ".json")
+            rec = {"property": pid, "obligation": name, "function": a["function"], "solver": inst.get("backend"),
+                   "solver_output": "obligation discharged on the pinned tree is no longer discharged (%s); "
+                                    "confirmed by a concrete failing input on the real code" % (inst.get("reason") or "unknown"),
+                   "path": inst.get("trace"), "lineno": inst.get("lineno")}
+            rec.update(rr)
+            json.dump(rec, open(rp, "w"), indent=1, default=str)
+            out_lines.append("VIOLATION property=%s replay=%s" % (pid, rp))
+            viol_count += 1
+        else:
+            still_unknown.append((name, a))
+    unknowns = still_unknown
     for name, a, insts in violations:
         inst = insts[0]
         rp = os.path.join(rdir, name.replace("/", "_").replace("#", "__").replace(":", "_") + ".json")
@@ -141,10 +176,7 @@ def run_property(pid, tier="quick", seed=0, replay_only=None):
                "solver_output": inst.get("reason"), "path": inst.get("trace"), "model": inst.get("model"),
                "model_text": inst.get("model_text", "")[:4000], "lineno": inst.get("lineno"),
                "replayed": False}
-        try:
-            rr = props.replay(pid, name, a["function"], inst)
-        except Exception:
-            rr = {"replayed": False, "error": traceback.format_exc()[-800:]}
+        rr = do_replay(name, a["function"], inst)
         rec.update(rr or {})
         json.dump(rec, open(rp, "w"), indent=1, default=str)
         tail = "" if rec.get("replayed") else " no-failing-input-found"
@@ -167,8 +199,9 @@ def run_property(pid, tier="quick", seed=0, replay_only=None):
         out_lines.append("KNOWN-FINDING: property=%s %s (%s)" % (pid, k.get("text", ""), name))
 
     # evidence
-    n_obl = len([a for a in agg.values() if a["kind"] != "cover"])
-    n_dis = len([a for a in agg.values() if a["status"] == "discharged" and a["kind"] != "cover"])
+    exp_names = {n for n, _a in expected_unknown}
+    n_obl = len([a for n, a in agg.items() if a["kind"] != "cover" and n not in exp_names])
+    n_dis = len([a for n, a in agg.items() if a["status"] == "discharged" and a["kind"] != "cover" and n not in exp_names])
     n_cover = len([a for a in agg.values() if a["kind"] == "cover"])
     solver_s = sum(a["seconds"] for a in agg.values())
     backends = {}
@@ -203,6 +236,7 @@ def run_property(pid, tier="quick", seed=0, replay_only=None):
                          [{"obligation": n, "reason": (a["unknown"][0].get("reason") or "")[:200]} for n, a in unknowns],
             "failed": [n for n, _a, _i in violations], "known_findings": sorted(seen_k),
             "never_passed": [n for n, _ in never_passed],
+            "undecided_at_baseline_not_counted": sorted(exp_names),
             "samples": samples,
             "bounded_standins": [{k: v for k, v in sb.items() if k != "violations"} for sb in standins],
             "not_proved_clauses": P.get("not_proved", []),
